@@ -63,6 +63,10 @@ pub struct Profile {
     /// declared in a different namespace (open finding F45 masks this for the wire checks)
     #[serde(default = "yes")]
     pub derived_simple_foreign_use: bool,
+    /// many restricted simple types, many of them derived from other restricted types, used as
+    /// member types wherever a builtin would have been chosen (C07 profile)
+    #[serde(default)]
+    pub restrict_bias: bool,
 }
 
 fn yes() -> bool {
@@ -103,6 +107,7 @@ impl Profile {
             collide: false,
             colliding_abbrev: false,
             derived_simple_foreign_use: true,
+            restrict_bias: false,
         }
     }
     /// switch a feature off by its tag name; returns false for an unknown tag
@@ -447,6 +452,10 @@ impl B<'_> {
     }
     fn resolve_ty(&mut self, file: usize, limit: usize, t: &RawTy, simple_only: bool) -> TypeRef {
         match t {
+            RawTy::Builtin(b) if self.p.restrict_bias && b % 2 == 0 && !self.candidates(file, limit, &[0], true).is_empty() => {
+                let c = self.candidates(file, limit, &[0], true);
+                TypeRef::Named(c[*b as usize % c.len()])
+            }
             RawTy::Builtin(b) => TypeRef::Builtin(BUILTINS[*b as usize % BUILTINS.len()].to_string()),
             RawTy::Named(sel) => {
                 let tags: &[u8] = if simple_only { &[0] } else { &[0, 1] };
@@ -807,6 +816,14 @@ pub fn build(raw: &RawModel, p: &Profile) -> (Model, BuildStats) {
                                 b.stats.mask("list_union");
                             }
                             let mut bt = b.resolve_ty(fi, limit, base, true);
+                            if p.restrict_bias && limit % 2 == 0 {
+                                // derive from an earlier restricted type of this file when there is one
+                                let c = b.candidates(fi, limit, &[0], true);
+                                let c: Vec<QRef> = c.into_iter().filter(|q| matches!(&b.files[q.file].comps[q.comp].kind, CompKind::Simple(SimpleKind::Restriction { .. }))).collect();
+                                if !c.is_empty() {
+                                    bt = TypeRef::Named(c[limit % c.len()]);
+                                }
+                            }
                             if let TypeRef::Named(q) = &bt {
                                 // (F45) a base in another namespace is flattened across namespaces too
                                 if !p.derived_simple_foreign_use && q.file != fi {
@@ -1077,7 +1094,19 @@ fn build_wsdl(m: &Model, rw: &RawWsdl, p: &Profile, stats: &mut BuildStats) -> O
         port_type: Name::canonical(&["main", "port", "type"], Style::UpperCamel),
         binding: Name::canonical(&["main", "binding"], Style::UpperCamel),
         service: plain_name(45, &rw.service, false),
-        address: format!("http://localhost:{}/svc/{}", 20000 + (rw.addr % 20000), EXTRA[rw.addr as usize % EXTRA.len()]),
+        address: {
+            let base = format!("http://localhost:{}", 20000 + (rw.addr % 20000));
+            let w = EXTRA[rw.addr as usize % EXTRA.len()];
+            match rw.addr % 7 {
+                0 => format!("{base}/svc/{w}/"),
+                1 => base.clone(),
+                2 => format!("{base}/"),
+                3 => format!("{base}/svc/{w}?wsdl=1&x=y"),
+                4 => format!("{base}/a%20b/{w}"),
+                5 => format!("https://example.org:8443/svc/{w}/"),
+                _ => format!("{base}/svc/{w}"),
+            }
+        },
     })
 }
 
